@@ -612,10 +612,14 @@ class Result:
         self.unknown = None
 
 
-def analyse(root, parts, want, inbits, check, max_parts=400000):
-    """check(part, av) -> None (proved on the partition) | 'split' | ('viol', text); returns Result"""
+def analyse(root, parts, want, inbits, check, max_parts=400000, probes=None):
+    """check(part, av) -> None (proved on the partition) | 'split' | ('viol', text); returns Result.
+    probes(part) -> single inputs of the partition worth looking at first when the enclosure is not conclusive on it (a
+    violation confined to a sparse set of inputs is found there long before bisection reaches it); a probe is decided like
+    any single-input partition, exactly."""
     R = Result()
     stack = list(reversed(parts))
+    probed = set()
     while stack:
         p = stack.pop()
         R.partitions += 1
@@ -643,6 +647,20 @@ def analyse(root, parts, want, inbits, check, max_parts=400000):
             if single:
                 R.unknown = 'enclosure undecided on a single input (%s)' % p.show()
                 return R
+            if probes is not None and len(probed) < 4000:
+                for V in probes(p):
+                    if p.vlo <= V <= p.vhi and (p.kind, p.scale, V) not in probed:
+                        probed.add((p.kind, p.scale, V))
+                        q = Part(p.kind, V, V, p.scale, p.desc)
+                        try:
+                            evq = Eval(q, inbits)
+                            vq = check(q, evq.ev(root, want), evq)
+                        except (NeedSplit, Unknown):
+                            continue
+                        if vq is not None and vq != 'split':
+                            R.singletons += 1
+                            R.violation = '%s: %s' % (q.show(), vq[1])
+                            return R
             stack.extend(reversed(p.split()))
             continue
         if single:
